@@ -311,11 +311,17 @@ func (o *out) sep() {
 }
 
 func (o *out) eol() {
-	switch o.r.draw(5, "eol") {
+	switch o.r.draw(7, "eol") {
 	case 1:
 		o.sb.WriteString(" # trailing comment } {")
 	case 2:
 		o.sb.WriteString("  ")
+	case 6:
+		// the comment starts right after the last character of the token before it ("The rest of the line
+		// is skipped if a # character is read in", lexer.go); its words are not tokens
+		o.sb.WriteString("#comment")
+	case 7:
+		o.sb.WriteString("#abutting comment of several words } { \" import x")
 	}
 	o.nl()
 }
